@@ -52,11 +52,6 @@ hvars == <<hLevel, hKey, hWhat, hStore, win, prev, memo, out, evald>>
 HWinIds == 0..Len(HWins)
 HReq(w) == IF w = 0 THEN <<>> ELSE HWins[w].oc
 HCut(w) == w # 0 /\ HWins[w].cut
-\* the grid an evaluation computes on
-HClip(w) == IF HCut(w) THEN GClip(HNat, HWins[w].oc) ELSE HNat
-HLo(w)   == IF HCut(w) THEN GClipLo(HNat, HWins[w].oc) ELSE 1
-HHi(w)   == IF HCut(w) THEN GClipHi(HNat, HWins[w].oc) ELSE Len(HNat)
-
 \* per-grid quantities of a computed grid c
 QSed(c) == [k \in 1..Len(c) |-> <<"B", c[k]>>]
 QOp(c)  == LET a == SelAlg("widened", HNat, c)
@@ -66,11 +61,23 @@ HAt(v, k, err) == IF k \in DOMAIN v THEN v[k] ELSE err
 \* positional combination (a stale array of another length: broadcast error, shown as the error entries)
 HCombine(g, s, o) == [k \in 1..Len(g) |-> [wn |-> g[k], sed |-> HAt(s, k, <<"B", -1>>), op |-> HAt(o, k, <<SelErr, SelErr>>)]]
 
+\* (constant tables over the requests: TLC evaluates them once)
+\* the grid an evaluation computes on, as a sequence and as an index range of the native grid
+HClipT == [w \in HWinIds |-> IF HCut(w) THEN GClip(HNat, HWins[w].oc) ELSE HNat]
+HLoT   == [w \in HWinIds |-> IF HCut(w) THEN GClipLo(HNat, HWins[w].oc) ELSE 1]
+HHiT   == [w \in HWinIds |-> IF HCut(w) THEN GClipHi(HNat, HWins[w].oc) ELSE Len(HNat)]
+HSedT  == [w \in HWinIds |-> QSed(HClipT[w])]
+HOpT   == [w \in HWinIds |-> QOp(HClipT[w])]
+HClip(w) == HClipT[w]
+HLo(w)   == HLoT[w]
+HHi(w)   == HHiT[w]
 \* the full native computation, and its restriction to the points a request computes
 HFullOut == HCombine(HNat, QSed(HNat), QOp(HNat))
-HRestricted(w) == [k \in 1..(HHi(w) - HLo(w) + 1) |-> HFullOut[HLo(w) + k - 1]]
+HRestrictedT == [w \in HWinIds |-> [k \in 1..(HHiT[w] - HLoT[w] + 1) |-> HFullOut[HLoT[w] + k - 1]]]
+HRestricted(w) == HRestrictedT[w]
 \* a freshly built object evaluated on the request
-HFresh(w) == LET c == HClip(w) IN HCombine(c, QSed(c), QOp(c))
+HFreshT == [w \in HWinIds |-> HCombine(HClipT[w], HSedT[w], HOpT[w])]
+HFresh(w) == HFreshT[w]
 
 \* ------------------------------------------------------------------ memo
 HKeySeq(w) == IF hLevel = "request" THEN HReq(w) ELSE HClip(w)
@@ -85,7 +92,7 @@ HHit(w) == {m \in memo : m.k = HKeyOf(w)}
 HUse(w, q, fresh) == IF hKey = "none" \/ hWhat # q \/ HHit(w) = {} THEN fresh
                      ELSE (CHOOSE m \in HHit(w) : TRUE).v
 HEntry(w) == LET c == HClip(w) IN
-             [k |-> HKeyOf(w), v |-> CASE hWhat = "grid" -> c [] hWhat = "sed" -> QSed(c) [] OTHER -> QOp(c)]
+             [k |-> HKeyOf(w), v |-> CASE hWhat = "grid" -> c [] hWhat = "sed" -> HSedT[w] [] OTHER -> HOpT[w]]
 
 HVariantOk == \* a memo of the clipped grid keyed on the clipped grid is circular: not a design
               /\ hWhat = "grid" => hLevel = "request"
@@ -100,7 +107,7 @@ HSetWin(w) == /\ win # w /\ win' = w /\ evald' = FALSE /\ out' = <<>>
               /\ UNCHANGED <<hLevel, hKey, hWhat, hStore, memo>>
 HEval == LET c == HClip(win)
              g == HUse(win, "grid", c)
-         IN  /\ out' = HCombine(g, HUse(win, "sed", QSed(c)), HUse(win, "op", QOp(c)))
+         IN  /\ out' = HCombine(g, HUse(win, "sed", HSedT[win]), HUse(win, "op", HOpT[win]))
              /\ memo' = IF hKey # "none" /\ HHit(win) = {}
                         THEN (IF hStore = "last" THEN {} ELSE memo) \cup {HEntry(win)} ELSE memo
              /\ evald' = TRUE
